@@ -275,7 +275,11 @@ def generate(rng, opts):
                 # a module that wildcard-imports itself keeps an unexpandable placeholder; others import * from it,
                 # and the package is also reachable through an alias of itself (`import pkg` inside pkg)
                 x = rng.choice(own)
-                modules[x]["stmts"].insert(0, {"s": "star", "mod": x})
+                # (above or below the module's own definitions: an expansion only overwrites what is defined earlier)
+                spell = x if rng.random() < 0.6 or "." not in x or modules[x]["init"] else "." + x.rsplit(".", 1)[1]
+                modules[x]["stmts"].insert(rng.randrange(len(modules[x]["stmts"]) + 1), {"s": "star", "mod": spell})
+                if rng.random() < 0.5:
+                    modules[x]["stmts"].insert(0, {"s": rng.choice(["def", "attr"]), "name": rng.choice(NAMES), "doc": False})
                 modules[holder]["stmts"].insert(rng.randrange(len(modules[holder]["stmts"]) + 1), {"s": "star", "mod": x})
                 if rng.random() < 0.7:
                     pkg = x.split(".")[0]
